@@ -327,12 +327,25 @@ def finish(res, level_extra=None):
                 if res.pid in f.get("properties", [f["property"]]) and f.get("status") == "open"]
     unlisted = []
     seen_known = {}
+    import hashlib
+    record = os.environ.get("VERIF_RECORD_WITNESSES")
     for v in res.violations:
         hit = None
         for f in findings:
-            if signature_matches(v["signature"], f["signature"]):
+            sig = {k: x for k, x in v["signature"].items() if k != "origin"}
+            if signature_matches(sig, f["signature"]):
                 hit = f
                 break
+        if hit and v["signature"].get("origin") == "template" and "template_witnesses" in hit:
+            # on the fixed set of hand-written templates the finding is identified by the programs that show
+            # it on the unchanged tree; the same symptom on any other template is a different violation
+            text = (v["replay"] or {}).get("original") or (v["replay"] or {}).get("program") or ""
+            h = hashlib.sha1(text.encode("utf-8")).hexdigest()[:16] + ":" + str(v["signature"].get("cls"))
+            if record:
+                print("WITNESS %s %s %s" % (hit["id"], h, text[:160].replace("\n", " ")))
+            elif h not in hit["template_witnesses"]:
+                v["what"] += "   [symptom of %s on a template that is not one of its recorded witnesses]" % hit["id"]
+                hit = None
         if hit:
             seen_known.setdefault(hit["id"], (hit, 0))
             seen_known[hit["id"]] = (hit, seen_known[hit["id"]][1] + 1)
